@@ -25,7 +25,7 @@ CATALOGUES = {
         "#| comment", "H|xx:i:1", "H|TS:i:1", "H|yy:i:2|TS:i:2",
     ], ids=["A", "B", "C", "p1", "p2", "l1", "c1", "zz", "1", "3"], unused=True,
         renames=[("A", "D"), ("A", "B"), ("B", "p1"), ("p1", "q"), ("l1", "l2"), ("C", "zz"), ("A", "4"), ("3", "5"),
-                 ("l1", "6"), ("p1", "9")],
+                 ("l1", "6"), ("p1", "9"), ("A", "*"), ("p1", "*"), ("B", "a b")],
         tagedits=[("A", "xx:i:5"), ("B", "LN:i:7"), ("p1", "yy:Z:a b"), ("l1", "RC:i:3")],
         deltags=[("l1", "ID:Z:l1"), ("c1", "ID:Z:c1")],
         setfs=[("S|C|*", 2, "ACG"), ("S|A|ACGT", 2, "*"), ("L|A|+|B|+|2M1D1M", 5, "*"), ("L|A|+|C|+|1M", 2, "-"),
@@ -53,7 +53,8 @@ CATALOGUES = {
         "# gfa2 comment", "H|TS:i:10",
     ], ids=["a", "b", "c", "e1", "e4", "g1", "o1", "o2", "u1", "u3", "zz", "2"], unused=True,
         renames=[("a", "d"), ("a", "b"), ("e1", "e9"), ("g1", "g9"), ("o1", "u1"), ("u1", "u2"), ("b", "e1"),
-                 ("a", "8"), ("e1", "9"), ("2", "11")],
+                 ("a", "8"), ("e1", "9"), ("2", "11"), ("a", "*"), ("e1", "*"), ("e4", "*"), ("g1", "*"), ("o1", "*"),
+                 ("u1", "*"), ("u2", "*"), ("b", "a b"), ("e2", "e 2")],
         tagedits=[("a", "xx:i:5"), ("e1", "yy:Z:a b"), ("u1", "yy:i:9"), ("o1", "xx:i:2"), ("g1", "zz:Z:q")],
         setfs=[("S|a|4|ACGT", 3, "*"), ("S|b|6|*", 2, "7"), ("E|e1|a+|b+|2|4$|0|2|2M", 8, "*"), ("E|e1|a+|b+|2|4$|0|2|2M", 4, "1"),
                ("E|e1|a+|b+|2|4$|0|2|2M", 2, "a-"), ("E|e2|a+|b-|0|4$|1|5|*", 8, "4M"), ("G|g1|a+|b-|10|*", 4, "7"),
@@ -149,6 +150,11 @@ CATALOGUES["topo2"] = dict(version="gfa2", lines=[
 ], ids=["a", "b", "c", "d", "e1"], renames=[("a", "x")], rsc=[2, 7, 20], rsl=True)
 
 
+def name_class(name):
+    """0 = an identifier, 1 = the placeholder, 2 = not an identifier (empty / contains a blank)"""
+    return 1 if name == "*" else 2 if (name == "" or " " in name or "\t" in name) else 0
+
+
 def text_of(src):
     return src.replace("|", "\t")
 
@@ -161,7 +167,7 @@ def build_ops(cat):
     for i in cat["ids"]:
         ops.append(dict(k="rm", text="", id=i, id2=""))
     for a, b in cat["renames"]:
-        ops.append(dict(k="ren", text="", id=a, id2=b))
+        ops.append(dict(k="ren", text="", id=a, id2=b, n=name_class(b)))
     for ln in cat["lines"]:
         if ln[0] in "LCEGFOUP":
             ops.append(dict(k="disc", text=text_of(ln), id="", id2=""))
@@ -1052,7 +1058,8 @@ def fuzz_jobs(n, seed, version, nmut=6, kind="fuzz"):
             if c < 0.3:
                 ops.append(dict(k="rm", text="", id=rnd.choice(ids), id2=""))
             elif c < 0.5:
-                ops.append(dict(k="ren", text="", id=rnd.choice(ids), id2=rnd.choice(fresh + ids)))
+                nn = rnd.choice(fresh + ids + ["*", "a b"])
+                ops.append(dict(k="ren", text="", id=rnd.choice(ids), id2=nn, n=name_class(nn)))
             elif c < 0.65:
                 t = rnd.choice(lines)
                 ops.append(dict(k="disc", text=t, id="", id2="") if t[0] != "S" else A(t))
